@@ -17,7 +17,7 @@ pub fn def() -> CheckDef {
         level: "fault_enumeration",
         assumptions: &["faults are injected at quiescent points only (the statement's scope)", "a killed engine runs no destructors; only the store survives", "monotone simulated clock", "no storage errors are injected"],
         probes: &["probe.restart_sqlite", "probe.restart_mem", "probe.evict", "probe.fault_with_open_interrupt", "probe.two_faults", "probe.generated_acts", "probe.env", "probe.catch"],
-        quick_cases: 500,
+        quick_cases: 1000,
         no_shrink: &[],
     }
 }
@@ -31,7 +31,7 @@ fn gen_scenario(rng: &mut vsim::rng::Rng) -> Scenario {
         dup: false,
         generators: rng.below(3) == 0,
         hooks: false,
-        outputs: true,
+        outputs: true, drop_outputs: false
     };
     let mut sc = gen_lifecycle(rng, &opts);
     let m = &mut sc.models[0];
